@@ -177,8 +177,8 @@ PROPS.update({
                  S("redefstrict", "run_prop2 CPanic 8", 200, 4000, variant="nat")],
         witness=[W("TestD7", "D7"), W("TestD8", "D8")],
         nontrivial_rule="history with at least one execution",
-        explanation="Theorems C08 / C08_unbounded (proofs/C08Redefine*.v): Redefine fails with the output-filter error exactly when an output is rejected; when it succeeds every input of the redefined function passes the input filter (bound: fewer than (2^63-1)/20 vertices) and none is keyed like a supplied value. NOT proved, decided by correspondence + monitor only: calling the redefined function with a value per input never fails for lack of an argument and yields the original results; success whenever every parameter is permitted. Correspondence: Redefine's declared inputs as a set, then the call of the redefined function (outer resolution of the synthesised struct function and inner original Call) against the model, on the property's domain (stream redefstrict) and beyond (stream redefine: subtypes, interfaces, multi-input converters, generated converters).",
-        assumptions=["the 'callable' and 'succeeds when all permitted' clauses are monitored, not proved"]),
+        explanation="Theorems C08 / C08_unbounded (proofs/C08Redefine*.v): Redefine fails with the output-filter error exactly when an output is rejected; when it succeeds every input of the redefined function passes the input filter (bound: fewer than (2^63-1)/20 vertices) and none is keyed like a supplied value. Theorem C08_succeeds (proofs/C08Succeeds*.v): on the domain, for every tape, Redefine returns a function whenever no output is rejected and every target parameter passes the input filter (only other outcome: the error of a failing converter generator). NOT proved, decided by correspondence + monitor only: calling the redefined function with a value per input never fails for lack of an argument and yields the original results (statement C08_callable_statement). Correspondence: Redefine's declared inputs as a set, then the call of the redefined function (outer resolution of the synthesised struct function and inner original Call) against the model, on the property's domain (stream redefstrict) and beyond (stream redefine: subtypes, interfaces, multi-input converters, generated converters).",
+        assumptions=["the 'callable' clause is monitored, not proved"]),
 })
 
 PROPS.update({
